@@ -327,7 +327,110 @@ def build_grammar(g, share=False):
     top = build(g["top"], fwd, pool)
     if share:
         build_grammar.hits = pool.get("#hits", 0)
+        build_grammar.pool = pool
     return top, fwd
+
+
+# ---- history: BUILD -> EVALUATE -> EXTEND / REPLACE -> EVALUATE
+
+def map_spec(spec, f):
+    """the spec with f applied to its direct sub-specs"""
+    k = spec[0]
+    out = list(spec)
+    if k in ("seq", "cho"):
+        out[1] = [f(c) for c in spec[1]]
+    elif k == "lift":
+        out[2] = [f(c) for c in spec[2]]
+    elif k in ("many", "opt", "wrap", "stag", "etag"):
+        out[1] = f(spec[1])
+    elif k == "map":
+        out[2] = f(spec[2])
+    elif k in ("until", "fb", "nfb", "kl", "kr", "sepby"):
+        out[1], out[2] = f(spec[1]), f(spec[2])
+    return out
+
+
+def sub_specs(spec, acc):
+    acc.append(spec)
+    map_spec(spec, lambda c: sub_specs(c, acc) or c)
+    return acc
+
+
+def replace_all(spec, target, new):
+    """every occurrence of an equal sub-spec is the SAME pooled object: a change to it shows at every occurrence"""
+    if spec == target:
+        return new
+    return map_spec(spec, lambda c: replace_all(c, target, new))
+
+
+def plan_history(rng, g):
+    """choose, at the level of specs, what is done to the built grammar after its first evaluation"""
+    cands = []
+    for sp in sub_specs(g["top"], []) + [x for r in g["rules"] for x in sub_specs(r, [])]:
+        if sp[0] in ("seq", "cho", "lift"):
+            cands.append(("extend", sp))
+            cands.append(("add_child", sp))
+        if sp[0] in ("seq", "cho") and sp[1] or sp[0] in ("until", "fb", "nfb", "kl", "kr"):
+            cands.append(("replace", sp))
+    for i in range(len(g["rules"])):
+        cands.append(("reassign", i))
+    if not cands:
+        return None
+    op, tgt = rng.choice(cands)
+    h = {"op": op, "extra": rng.choice([["chr", "z"], ["chr", "z"], ["set", "yz"], ["lit", "zz", None, False]])}
+    if op == "reassign":
+        h["rule"] = tgt
+    else:
+        h["target"] = tgt
+        if op == "replace":
+            h["child"] = rng.randrange(len(tgt[1])) if tgt[0] in ("seq", "cho") else rng.randrange(2)
+    return h
+
+
+def grammar_after(g, h):
+    """the grammar the objects denote AFTER the step (the model grammar of the second evaluation)"""
+    x = h["extra"]
+    if h["op"] == "reassign":
+        rules = list(g["rules"])
+        rules[h["rule"]] = ["cho", [x, rules[h["rule"]]], "list"]
+        return dict(g, rules=rules)
+    t = h["target"]
+    new = list(t)
+    if h["op"] in ("extend", "add_child"):
+        if t[0] == "lift":
+            new[2] = t[2] + [x]
+        else:
+            new[1] = t[1] + [x]
+    elif t[0] in ("seq", "cho"):
+        new[1] = [x if j == h["child"] else c for j, c in enumerate(t[1])]
+    else:
+        new[1 + h["child"]] = x
+    return dict(g, top=replace_all(g["top"], t, new), rules=[replace_all(r, t, new) for r in g["rules"]])
+
+
+def apply_history(g, h, fwd, pool):
+    """do the step to the BUILT objects through the public API; returns (the object acted on, repr evidence)"""
+    def obj_of(spec):
+        return fwd[spec[1]] if spec[0] == "ref" else pool[json.dumps(spec, sort_keys=True)]
+    extra = build(h["extra"], fwd, None)
+    if h["op"] == "reassign":
+        f = fwd[h["rule"]]
+        f <= Choice([extra, obj_of(g["rules"][h["rule"]])])
+        return f
+    t = h["target"]
+    node = obj_of(t)
+    if h["op"] == "extend":
+        res = (node | extra) if t[0] == "cho" else (node + extra) if t[0] == "seq" else (node * extra)
+        if res is not node:
+            raise Shape("%s %s a further operand returned a new %s instead of extending the combinator" % (
+                type(node).__name__, {"cho": "|", "seq": "+", "lift": "*"}[t[0]], type(res).__name__))
+    elif h["op"] == "add_child":
+        node.add_child(extra)
+    else:
+        kids = [obj_of(c) for c in (t[1] if t[0] in ("seq", "cho") else [t[1], t[2]])]
+        kids[h["child"]] = extra
+        node.set_children(kids)
+    return node
 
 
 def fn_spec_tokens(fs):
@@ -1035,6 +1138,13 @@ def gen_grammar(rng, depth):
     out = {"rules": rules, "top": g.term(depth, False)}
     if nrules and rng.random() < 0.4:
         out["fwd_styles"] = [rng.choice(["<="] + SET_STYLES) for _ in range(nrules)]
+    if rng.random() < 0.3:
+        h = plan_history(rng, out)
+        if h is not None:
+            g2 = grammar_after(out, h)
+            t2, r2 = intended(g2)
+            h["inputs"] = gen_inputs(rng, t2, r2, 7)
+            out["history"] = h
     return out
 
 
@@ -1153,7 +1263,73 @@ def check_grammar(chk, g, inputs, cases, impl_lines, model_lines):
                 chk.failure("evaluation #%d of the same grammar object on %r gives %s, the first evaluation gave %s" % (
                     n, s, again, first[s]), {"kind": "term", "grammar": g, "input": s, "history": list(inputs) + [s] * (n - 2)})
                 break
+    if g.get("history"):
+        phase_two(chk, g, g["history"], top, fwd, inputs, cases, impl_lines, model_lines)
     return term, rules
+
+
+def phase_two(chk, g, h, top, fwd, inputs1, cases, impl_lines, model_lines):
+    """BUILD -> EVALUATE (done) -> EXTEND / ADD_CHILD / REPLACE A CHILD / RE-ASSIGN A FORWARD -> EVALUATE: the second
+    evaluation means the grammar AS IT IS NOW, in the larger grammar and on the changed combinator directly"""
+    g2 = dict(grammar_after(g, h))
+    g2.pop("history", None)
+    term2, rules2 = intended(g2)
+    case0 = {"kind": "term", "grammar": g, "input": (h["inputs"] or [""])[0], "phase": 2, "history": list(inputs1)}
+    what = "after %s (%s)" % (h["op"], json.dumps(h.get("target", h.get("rule")))[:120])
+    chk.count("history:" + h["op"])
+    try:
+        pool = build_grammar.pool
+        tgt_spec1 = g["rules"][h["rule"]] if h["op"] == "reassign" else h["target"]
+        tgt_obj = fwd[h["rule"]] if h["op"] == "reassign" else pool[json.dumps(tgt_spec1, sort_keys=True)]
+        for s in inputs1[:2]:
+            run_impl(tgt_obj, s)                     # the combinator has also been evaluated DIRECTLY before the step
+        node = apply_history(g, h, fwd, pool)
+        ids = dict((id(f), i) for i, f in enumerate(fwd))
+        rb = " ".join([str(len(fwd))] + [x for j, f in enumerate(fwd) for x in tokens(forward_body(f, ids, j))]) + " // " + \
+            " ".join(tokens(walk(top, ids)))
+        node_term = walk(node, ids)
+        shown = P.text_format(node)
+    except Shape as e:
+        chk.failure("%s the grammar has the wrong shape: %s" % (what, e), case0)
+        return
+    except Hang:
+        raise
+    except Exception as e:
+        chk.failure("%s: the step raised %s: %s" % (what, type(e).__name__, str(e)[:200]), case0)
+        return
+    rtok = " ".join([str(len(rules2))] + [x for r in rules2 for x in tokens(r)])
+    ttok = " ".join(tokens(term2))
+    if rb != rtok + " // " + ttok:
+        chk.failure("%s the built objects read back as  %s  — the grammar is now  %s" % (what, rb, rtok + " // " + ttok), case0)
+    if h["op"] in ("extend", "add_child") and not re.search(r"Char\(z\)|InSet\(\['y', 'z'\]\)|Literal'zz'", shown):
+        chk.failure("%s the rendering of the combinator (text_format) does not show the added operand:\n%s" % (what, shown[:300]), case0)
+    tagged = has_tags(term2, rules2)
+    ntok = " ".join(tokens(node_term))
+    for n_before, s in enumerate(h["inputs"]):
+        for obj, tk, tm in ((top, ttok, term2), (node, ntok, node_term)):
+            if obj is node and n_before >= 3:
+                continue
+            line, summary, cferr = run_impl(obj, s)
+            case = {"kind": "term", "grammar": g, "input": s, "phase": 2, "history": list(inputs1)}
+            cases.append(case)
+            impl_lines.append(line)
+            model_lines.append("run\t%s\t%s\t%s\t%s" % (FUEL, rtok, tk, enc(s)))
+            chk.case((tk, rtok, s, 2), nontrivial=line.startswith("ok"))
+            chk.count("phase2:" + line.split("|")[0].split(" ")[0])
+            if line == "hang":
+                chk.failure("%s the parser did not terminate within 5 s on %r" % (what, s), case)
+                cases.pop(), impl_lines.pop(), model_lines.pop()
+                raise StopStream()
+            want = reference(tm, rules2, s)
+            if want is not None and want != summary:
+                finding = None
+                if reference(tm, rules2, s, leaky=True, swallow=True) == summary:
+                    if summary.startswith("value") and cferr:
+                        finding = "function-error-swallowed"
+                    elif tagged:
+                        finding = "tag-stack-not-restored"
+                chk.failure("%s PEG semantics of the grammar as it is now gives %s, the combinators give %s on input %r" % (
+                    what, want, summary, s), case, finding)
 
 
 # --------------------------------------------------------------------------- JSON
@@ -1838,6 +2014,11 @@ def run(chk):
                 "sampled derivations of the term, their one-edit neighbours, and random strings up to length 6; "
                 "non-trivial = process() succeeded, distinct = (term, rules, input) not seen before" % n_inputs)
     chk.assumptions = [
+        "history: 30% of the generated grammars are evaluated, then a Sequence / Choice / Lift inside them is extended (| + * "
+        "or add_child), or a child of a Sequence / Choice / Until / FollowedBy / NotFollowedBy / KeepLeft / KeepRight is replaced "
+        "through set_children, or a Forward is re-assigned with <=, and evaluated again — in the larger grammar and on the "
+        "changed combinator directly; the model grammar of each evaluation is the term as it is at that evaluation, and the "
+        "read-back structure and the rendering (text_format) must show the change",
         "a combinator OWNS its operand list: Sequence / Choice are also constructed from a generator expression, a one-shot "
         "iterator, a tuple, from ONE list object handed to two combinators one of which is then extended with | or +, and from "
         "a list the caller mutates after construction; Until / FollowedBy / NotFollowedBy / KeepLeft / KeepRight / Lift / "
